@@ -65,6 +65,9 @@ def inv_norm(J):
     return ninv, nj * ninv
 
 
+PLANAR_TINY_F64 = 1e-3  # C01 (whose tolerance is scaled by the autodiff condition number) lowers this to 1e-4
+
+
 def planar_degenerate(planar_obj, cond):
     """The planar parameterisation guarantees w.u_hat > -1 only up to rounding: once w.u is very negative
     (softplus underflow) 1 + w.u_hat is ~0 and the layer is numerically singular on one side of its
@@ -76,7 +79,7 @@ def planar_degenerate(planar_obj, cond):
         wu = float(np.asarray(g._act_scale, np.float64) @ w)
         lim = -10.0 if bd.shim.F32 else -30.0
         slopes = [1.0] + ([float(g.negative_slope)] if g.negative_slope is not None else [])
-        tiny = 3e-2 if bd.shim.F32 else 1e-3  # conditioning of the planar inverse is 1/|1 + s w.u_hat|; get_act_scale itself loses ~1e-16 absolute
+        tiny = 3e-2 if bd.shim.F32 else PLANAR_TINY_F64  # conditioning of the planar inverse is 1/|1 + s w.u_hat|; get_act_scale itself loses ~1e-16 absolute
         return (not np.isfinite(wu)) or wu < lim or any(abs(1.0 + sl * float(w @ uh)) < tiny for sl in slopes)
     except Exception:  # noqa: BLE001
         return False
